@@ -1,4 +1,5 @@
 import Autd3.Drv.C09
+import Autd3.Drv.Fw
 /-! `autd3model <stream>`: one request line in, one answer line out. -/
 
 partial def loop {σ : Type} (h : IO.FS.Stream) (out : IO.FS.Stream) (step : σ → String → σ × String) (s : σ) : IO Unit := do
@@ -13,4 +14,7 @@ def main (args : List String) : IO UInt32 := do
   let stdout ← IO.getStdout
   match args with
   | ["silencer"] => loop stdin stdout Autd3.Drv.C09.step Autd3.Drv.C09.init; return 0
+  | [s] =>
+    if s.startsWith "fw_" then do loop stdin stdout Autd3.Drv.FwS.step Autd3.Drv.FwS.init; return 0
+    else do IO.eprintln "unknown stream"; return 2
   | _ => IO.eprintln "usage: autd3model <stream>"; return 2
